@@ -6,7 +6,7 @@ from props import _transfer_common as TC
 from props import _transfer_push as TP
 
 PROPERTY = "C04"
-GEN: list = []
+GEN: list = ["transfer"]
 RULE = (
     "scenario = universe (3-6 file contents incl. the empty one, 1-4 flat listings sharing files and repeating a "
     "file under several paths, per-scenario salt) x source (complete / a listed file missing / a corrupt file object) "
